@@ -15,8 +15,12 @@ from . import gen, tensorops
 
 
 def _num(x):
-    x = np.asarray(x, dtype=complex)
-    return {'__num__': [list(x.shape), x.real.ravel().tolist(), x.imag.ravel().tolist()]}
+    x = np.asarray(x)
+    # precision class of the values (single precision results differ by summation order at the 1e-7 relative level;
+    # "equal up to floating-point tolerance" is judged in the precision the values were computed in)
+    single = x.dtype.kind in 'fc' and x.dtype.itemsize // (2 if x.dtype.kind == 'c' else 1) < 8
+    x = x.astype(complex)
+    return {'__num__': [list(x.shape), x.real.ravel().tolist(), x.imag.ravel().tolist()], 'single': bool(single)}
 
 
 def _same(u, v):
@@ -24,7 +28,9 @@ def _same(u, v):
         if not (isinstance(v, dict) and '__num__' in v):
             return False
         a, b = u['__num__'], v['__num__']
-        return a[0] == b[0] and np.allclose(a[1], b[1], rtol=1e-9, atol=1e-10) and np.allclose(a[2], b[2], rtol=1e-9, atol=1e-10)
+        rtol, atol = (1e-4, 1e-4) if (u.get('single') or v.get('single')) else (1e-9, 1e-10)
+        scale = max([1.] + [abs(t) for t in a[1]] + [abs(t) for t in a[2]])
+        return a[0] == b[0] and np.allclose(a[1], b[1], rtol=rtol, atol=atol * scale) and np.allclose(a[2], b[2], rtol=rtol, atol=atol * scale)
     if isinstance(u, list) and isinstance(v, list) and len(u) == len(v) and u and isinstance(u[0], dict):
         return all(_same(x, y) for x, y in zip(u, v))
     return u == v
